@@ -897,7 +897,9 @@ func (e *Exec) stub(fn *ssa.Function, full string, args []Value) (Value, bool) {
 			return nil, true
 		}
 		e.onceDone[k] = true
+		e.inOnce++
 		e.invoke(args[1].(*FuncV), nil)
+		e.inOnce--
 		return nil, true
 	}
 	if strings.HasPrefix(full, "(*sync.WaitGroup).") {
